@@ -3,6 +3,11 @@
 Passes under test: pipeline-canonicalize-for (ChangeForStep, MergeForLoops) and reuse-memref-allocs
 (LoopHoistPureOperations, MoveMemrefDims), separately and in pipeline order (snaxc_main: reuse-memref-allocs runs first).
 Every stage is checked on its own input: module before the pass vs module after it, executed on the same inputs.
+
+Violations are named by the stage, the structural feature of the stage's input that the mismatch depends on (features(),
+reuse_features()) and the kind of mismatch, so that each reported finding has a narrow signature and any other break keeps
+its generic name ("canon-for:trace:<kind>", "reuse-allocs:trace:<kind>", "...:invalid-ir:<how>"). All distinct mismatches of a
+case are classified; the runner raises the first one that is not listed as known.
 """
 from __future__ import annotations
 
@@ -35,8 +40,12 @@ RULE = (
     "every tagged op with its evaluated operands (memrefs as root buffer + root shape + offsets + sizes). Oracle: identical event "
     "sequence and index operands; memref operands are the same view of a same-sized buffer, function arguments stay themselves, one "
     "original allocation never becomes two, and two original allocations share a transformed one only if their uses do not interleave. "
-    "When the pass replaced an affine.min by its constant bound, memref dimensions may grow to exactly what the original computes with "
-    "that affine.min forced to its bound. Non-trivial: the pass changed the loop structure or moved/replaced an op, and some loop body ran >= 2 times; distinct by recipe hash."
+    "For reuse-memref-allocs a memref dimension may instead equal what the original computes with its affine.min ops forced to their "
+    "constant bound (the documented 'maximum possible value'); index operands, offsets and the event sequence get no such allowance. "
+    "IR that does not verify or violates SSA dominance after a pass returned normally is a violation; an exception raised by a pass is a rejection. "
+    "Plus two exhaustive grids for pipeline-canonicalize-for: single loops lb in {0,1,2} x ub 0..12 x step 1..5 (and a run-time ub), and nests "
+    "(2 levels ub 0..4 x steps 1..2 x marker before/after the inner loop; sibling inner loops with a marker between; 3 levels with a marker at the middle level). "
+    "Non-trivial: the pass changed the (op, loop depth) profile (structure changed or an op moved/was replaced) and some loop body ran >= 2 times; distinct by recipe hash."
 )
 ASSUMPTIONS = [
     "xDSL 0.70 compatibility shim (vlib/compat.py)",
